@@ -342,7 +342,9 @@ void ApiRun::op_loop_by_item(const Op &o) {
     if (want) { if (!h) violate("result", "get_item_loop:null", "no handle recorded on success"); if (loops.size() < 40) add_loop(h, ci, m->uid, l->uid, hs); else cif_loop_free(h); }
 }
 void ApiRun::op_loops_all(const Op &o) {
-    int hs = pick_cont(o.a, true); if (hs < 0) SKIP("no container handle");
+    int hs = (o.c % 3 == 0 && !cfg.weights[O_PlantFail]) ? pick_cont_beside_iter(o.a) : -1;     // a query beside an open iterator (another container of that CIF)
+    if (hs >= 0) g_stats.inc("api.query_beside_iterator"); else hs = pick_cont(o.a, true);
+    if (hs < 0) SKIP("no container handle");
     int ci = conts[(size_t) hs].cif; MCont *m = mcont(hs);
     cif_loop_tp **ls = NULL;
     int rc = CALL("cif_container_get_all_loops", (ls = NULL, cif_container_get_all_loops(conts[(size_t) hs].h, &ls)));
@@ -382,7 +384,9 @@ void ApiRun::op_prune(const Op &o) {
 
 // ------------------------------------------------------------------------------------------------ items
 void ApiRun::op_get_value(const Op &o) {
-    int hs = pick_cont(o.a, true); if (hs < 0) SKIP("no container handle");
+    int hs = (o.c % 4 == 0 && !cfg.weights[O_PlantFail]) ? pick_cont_beside_iter(o.a) : -1;     // a query beside an open iterator (another container of that CIF)
+    if (hs >= 0) g_stats.inc("api.query_beside_iterator"); else hs = pick_cont(o.a, true);
+    if (hs < 0) SKIP("no container handle");
     int ci = conts[(size_t) hs].cif; MCont *m = mcont(hs);
     ustr name = name_str(o.names[0], o.simple); ustr nn = mnorm(name);
     MLoop *l = (o.names[0].invalid >= 0) ? NULL : m->loop_of(nn);
@@ -494,7 +498,7 @@ void ApiRun::op_loop_cat(const Op &o) {
     if (!model_ok && !cache_ok) violate("result", "get_category:value", strprintf("cif_loop_get_category reports %s, the loop's category is %s", has ? u8(got).c_str() : "(null)", l->has_cat ? u8(l->cat).c_str() : "(null)"));
 }
 void ApiRun::op_loop_names(const Op &o) {
-    int ls = pick_loop(o.a, true, true); if (ls < 0) SKIP("no loop handle");
+    int ls = pick_loop(o.a, forced_loop < 0, true); if (ls < 0) SKIP("no loop handle");      // (a planted failure aims it at a loop beside an open iterator)
     HLoop &hl = loops[(size_t) ls]; MLoop *l = mloop(ls);
     UChar **names = NULL;
     int rc = CALL("cif_loop_get_names", (names = NULL, cif_loop_get_names(hl.h, &names)));
